@@ -101,6 +101,11 @@ func (c CounterStyle) RenderValueStyle(counterValue int, counterStyle pr.Counter
 }
 
 func (c CounterStyle) renderValue(counterValue int, counter *CounterStyleDescriptors, previousTypes utils.Set) string {
+	if counterValue == math.MinInt {
+		// the smallest integer has no absolute value: clamp it, so that the algorithms below
+		// never index with a negative number
+		counterValue = math.MinInt + 1
+	}
 	if counter == nil {
 		if _, has := c["decimal"]; has {
 			return c.RenderValue(counterValue, "decimal")
